@@ -153,6 +153,9 @@ func (e *env) build(v *Val) interface{} {
 	case "nil":
 		return nil
 	case "shared":
+		if e.t != nil {
+			e.stats.Extra["shared_operand_uses"]++
+		}
 		return sharedVal(v.I)
 	case "int":
 		return int(v.I)
